@@ -28,6 +28,13 @@ def audit(lines):
                         out.append((errs[0], m['tol'], 'hat(ad(a) b) != [hat a, hat b]'))
                     if not (errs[1] <= m['tol']):
                         out.append((errs[1], m['tol'], 'lie_bracket(a,b) != ad(a) b'))
+                    # bilinear scale: error relative to |a|·|b| (catches a bracket that is wrong only when one
+                    # argument is tiny); 8 dof-sized accumulations of rounding are allowed for
+                    if len(errs) >= 4:
+                        if not (errs[2] <= 64 * m['tol']):
+                            out.append((errs[2], 64 * m['tol'], 'hat(ad(a) b) != [hat a, hat b] relative to |a||b| (bilinearity)'))
+                        if not (errs[3] <= 64 * m['tol']):
+                            out.append((errs[3], 64 * m['tol'], 'lie_bracket(a,b) != ad(a) b relative to |a||b| (bilinearity)'))
                     return out
                 reqs.append((' '.join(['a_ad', l.grp, p] + l.ins + a.outs + l.outs), dict(base, judge=judge, what='ad/bracket')))
         elif l.op == 'Adexp':
